@@ -44,7 +44,7 @@ pub fn check_order(c: &LoopCase, tr: &Traces, t_eff: usize) -> Result<bool, (Str
         for (k, r) in tt.rounds.iter().enumerate() {
             for e in &r.pre {
                 match e.ev {
-                    Ev::Gen { .. } | Ev::Count { .. } | Ev::AllocOp { .. } => {}
+                    Ev::Gen { .. } | Ev::Count { .. } | Ev::AllocOp { .. } | Ev::TallyClear => {}
                     other => return Err(("untimed-before".into(), format!("thread {t} round {k}: {other:?} before the start timestamp"))),
                 }
             }
@@ -70,6 +70,17 @@ pub fn check_order(c: &LoopCase, tr: &Traces, t_eff: usize) -> Result<bool, (Str
                 match e.ev {
                     Ev::DropOut { .. } | Ev::DropIn { .. } | Ev::AllocOp { .. } => {}
                     other => return Err(("untimed-after".into(), format!("thread {t} round {k}: {other:?} after the end timestamp"))),
+                }
+            }
+            // The tally is cleared after the last input was generated and
+            // counted, right before the timed section.
+            if let Some(pos) = r.pre.iter().position(|e| matches!(e.ev, Ev::TallyClear)) {
+                if r.pre[pos..].iter().any(|e| matches!(e.ev, Ev::Gen { .. } | Ev::Count { .. })) {
+                    return Err(("clear-before-generation".into(), format!("thread {t} round {k}: the tally was cleared before input generation finished")));
+                }
+            } else if !c.test_mode || true {
+                if r.calls() > 0 || !r.window.is_empty() {
+                    return Err(("no-clear".into(), format!("thread {t} round {k}: the tally was not cleared before the timed section")));
                 }
             }
             let pre_allocs = r.pre.iter().any(|e| matches!(e.ev, Ev::AllocOp { .. }));
@@ -185,7 +196,7 @@ fn case() -> impl Strategy<Value = LoopCase> {
             c.input_counters = input_counters;
             // Tuned sizes: 1 tick = 1 ns, precision 1 ns, so the size freezes by 128.
             c.costs.call = CostModel::Const(if s.is_none() { cost.max(1) } else { cost });
-            c.allocs = AllocScripts { benched_first_calls: first, benched_vary: vary, gen, benched, drop_out, drop_in, counter };
+            c.allocs = AllocScripts { benched_first_calls: first, benched_vary: vary, vary_by_thread: vary, gen, benched, drop_out, drop_in, counter };
             c
         })
 }
@@ -207,6 +218,7 @@ fn matrix(_: crate::engine::Tier) -> Vec<LoopCase> {
                     c.allocs = AllocScripts {
                         benched_first_calls: 0,
                         benched_vary: true,
+                        vary_by_thread: true,
                         gen: vec![AllocStep::Alloc(100)],
                         benched: vec![AllocStep::Alloc(7), AllocStep::Realloc(30), AllocStep::Dealloc],
                         drop_out: vec![AllocStep::Alloc(200), AllocStep::Dealloc],
